@@ -55,6 +55,8 @@ type Options struct {
 	NoReplay bool
 	Verbose  bool
 	NoCross  bool
+	Trace    bool
+	MaxPaths int
 }
 
 type unitReport struct {
@@ -77,6 +79,7 @@ type unitReport struct {
 	Confirmed   int            `json:"violations_replay_confirmed"`
 	Spurious    int            `json:"spurious"`
 	Known       int            `json:"known_findings_matched"`
+	KnownTotal  int            `json:"paths_failing_only_by_known_findings"`
 	Inconcl     []string       `json:"inconclusive,omitempty"`
 	Reach       map[string]int `json:"assert_reach"`
 	Cross       string         `json:"cross_solver,omitempty"`
@@ -202,11 +205,18 @@ func RunProperty(o Options) int {
 		} else if o.Tier == "thorough" {
 			to = 3600
 		}
-		cfg := RunConfig{Harness: u.Entry, Workers: o.Workers, Params: params, Timeout: time.Duration(to) * time.Second}
+		cfg := RunConfig{Harness: u.Entry, Workers: o.Workers, Params: params, Timeout: time.Duration(to) * time.Second, Trace: o.Trace, MaxPaths: o.MaxPaths,
+			KnownMatch: func(v *Violation) string { return matchKnown(v, o.Prop, known) }}
 		tu := time.Now()
 		ex := pr.Explore(fn, cfg)
 		st := ex.Stats
-		rep := &unitReport{Unit: u.Entry, Pkg: u.Pkg, Claim: u.Claim, Params: params, Paths: st.Paths, PathsByEnd: st.PathsByEnd, Nontrivial: st.Nontrivial,
+		nknown := 0
+		for k, n := range ex.violCount {
+			if !strings.HasSuffix(k, "|") {
+				nknown += n
+			}
+		}
+		rep := &unitReport{KnownTotal: nknown, Unit: u.Entry, Pkg: u.Pkg, Claim: u.Claim, Params: params, Paths: st.Paths, PathsByEnd: st.PathsByEnd, Nontrivial: st.Nontrivial,
 			Obligations: st.Obligations, Discharged: st.Discharged, Trivial: st.TrivialObl, Queries: st.Queries, SolverS: st.SolverTime.Seconds(),
 			WallS: time.Since(tu).Seconds(), Steps: st.Steps, MaxDepth: st.MaxDepth, Violations: len(ex.Violations), Reach: st.AssertReach}
 		for _, m := range st.Inconclusive {
@@ -384,9 +394,9 @@ func writeEvidence(o Options, pc *PropConfig, reports []*unitReport, ev *evidenc
 		ts += r.SolverS
 	}
 	cov := map[string]interface{}{
-		"explanation": pc.Explanation + " Decided by bounded symbolic execution of the listed functions (compiled from /repo's current source to go/ssa on this run) with z3 (5.1.0, QF_BV, one long-lived process per worker) discharging every obligation on every feasible path; 'evaluations' counts explored paths, 'distinct_nontrivial' counts paths (distinct decision prefixes) on which at least one obligation with a non-constant condition was put to the solver.",
+		"explanation": pc.Explanation + " Decided by bounded symbolic execution of the listed functions (compiled from /repo's current source to go/ssa on this run) with z3 (5.1.0, QF_BV, one long-lived process per worker) discharging every obligation on every feasible path; 'evaluations' counts explored paths, 'distinct_nontrivial' counts paths (distinct decision prefixes, each with a solver-established feasible path condition of at least one symbolic decision) that reached at least one obligation; obligations whose condition folds to a constant on a path (e.g. floating-point results computed from that path's concrete counts) are counted under obligations_folded_constant_true per unit.",
 		"evaluations": tp, "distinct_nontrivial": tn,
-		"rule":        "paths are enumerated by replay-based DFS over symbolic branch decisions (each decision prefix is explored once; a branch is followed only if the solver finds it feasible); a path is non-trivial when it reaches an obligation whose condition is not a constant",
+		"rule":        "paths are enumerated by replay-based DFS over symbolic branch decisions (each decision prefix is explored once; a branch is followed only if the solver finds it feasible); a path is non-trivial when it made at least one symbolic decision and reached an obligation",
 		"obligations": to, "discharged": td, "queries": tq, "solver_time_s": ts,
 		"units":          reports,
 		"outside_bounds": pc.Outside,
@@ -626,7 +636,9 @@ func replayViolations(o Options, hs *HarnessSet, pkgNames map[string]string, vio
 	})
 	n := 0
 	for _, v := range viols {
-		v.Known = matchKnown(v, o.Prop, known)
+		if v.Known == "" {
+			v.Known = matchKnown(v, o.Prop, known)
+		}
 		key := v.Harness + "/" + v.AssertID + "/" + v.Known
 		perID[key]++
 		if perID[key] > replayPerID {
